@@ -191,6 +191,17 @@ var newUClientConnection = func(
 					ShuffleQUICTransportParameters(ext)
 				}
 				params.PopulateFromUQUIC(ext.TransportParameters)
+				// [UQUIC] Record exactly the bytes that go on the wire. uTLS marshals the
+				// extension once, on its first Len(), and caches the result; a second
+				// TransportParameters.Marshal() is not guaranteed to reproduce it (e.g.
+				// tls.VersionInformation draws a fresh GREASE version on every Value() call).
+				// So take the override from the extension itself: this fixes its encoding now,
+				// and the ClientHello will carry the very same bytes.
+				if raw := make([]byte, ext.Len()); len(raw) >= 4 {
+					if n, _ := ext.Read(raw); n == len(raw) {
+						params.ClientOverride = raw[4:] // skip extension type and length
+					}
+				}
 				s.connIDManager.SetConnectionIDLimit(params.ActiveConnectionIDLimit)
 				tpSet = true
 				break FOR_EACH_TLS_EXTENSION
